@@ -84,6 +84,11 @@ def correspond_c19(tier, impl_only=False):
             if v:
                 v = dict(v); v["case"] = p_gen.slim(c)
                 res.spec_violations.append(v)
+            # an accessor (chain) for every declared object instance, and none that corresponds to nothing
+            v = oracles.check_c04(dict(c, profile="mixed"), af, a, (model or {}).get(c["id"], {}).get("facts") if model else None)
+            if v and ("has no accessor chain" in v["why"] or "does not correspond to a declared object" in v["why"]):
+                v = dict(v); v["case"] = p_gen.slim(c)
+                res.spec_violations.append(v)
     # compile in batches
     batch = 30
     for b0 in range(0, len(accepted), batch):
